@@ -364,11 +364,79 @@ def extract_lh(g):
     g.nat('lhNrOfChannels', need(hc, ['NR_OF_CHANNELS'], 'LighthouseMemHelper')[0])
 
 
+def extract_deck(g):
+    tree = X.parse('cflib/crazyflie/mem/deck_memory.py')
+    dm = X.find(tree, 'DeckMemory')
+    dc = class_consts_eval(dm)
+    masks = ['MASK_IS_VALID', 'MASK_IS_STARTED', 'MASK_SUPPORTS_READ', 'MASK_SUPPORTS_WRITE', 'MASK_SUPPORTS_UPGRADE',
+             'MASK_UPGRADE_REQUIRED', 'MASK_BOOTLOADER_ACTIVE', 'MASK_SUPPORTS_RESET_TO_FW', 'MASK_SUPPORTS_RESET_TO_BOOTLOADER']
+    vals = need(dc, masks, 'DeckMemory')
+    for k, v in zip(masks, vals):
+        g.nat('deck' + ''.join(w.capitalize() for w in k.split('_')), v)
+    # the properties: name -> (bit field, mask)
+    props = []
+    for n in dm.body:
+        if isinstance(n, ast.FunctionDef) and any(ast.unparse(d) == 'property' for d in n.decorator_list):
+            rets = [r for r in ast.walk(n) if isinstance(r, ast.Return)]
+            X.expect(len(rets) == 1, 'DeckMemory.%s: expected one return' % n.name)
+            props.append('%s: %s' % (n.name, ast.unparse(rets[0].value)))
+    g.strings('deckProps', props)
+    pa = X.find(dm, '_parse')
+    sc = one_struct(pa, 'DeckMemory._parse', n=2)
+    emit_struct(g, 'deckBits', sc[0])
+    emit_struct(g, 'deckRec', sc[1])
+    ut = unpack_targets(pa)
+    g.strings('deckBitsTargets', ut[0])
+    g.strings('deckRecTargets', ut[1])
+    a = assigns(pa)
+    X.expect('self.name' in a, 'DeckMemory._parse: self.name = ... not found')
+    g.string('deckNameSrc', ast.unparse(a['self.name']))
+    tries = [n for n in ast.walk(pa) if isinstance(n, ast.Try)]
+    X.expect(len(tries) == 1 and len(tries[0].handlers) == 1, 'DeckMemory._parse: expected one try/except')
+    g.string('deckParseExcept', ast.unparse(tries[0].handlers[0].type) if tries[0].handlers[0].type else '')
+    g.strings('deckParseHandler', sorted(ast.unparse(n) for n in tries[0].handlers[0].body if isinstance(n, ast.Assign)))
+    g.strings('deckParseTests', [ast.unparse(n.test) for n in ast.walk(pa) if isinstance(n, ast.If)])
+    mgr = X.find(tree, 'DeckMemoryManager')
+    mc = class_consts_eval(mgr)
+    names = ['MAX_NR_OF_DECK_MEM_INFOS', 'SIZE_OF_DECK_MEM_INFO', 'SIZE_OF_VERSION', 'SIZE_OF_INFO_SECTION', 'INFO_SECTION_ADDRESS',
+             'COMMAND_SECTION_ADDRESS', 'SIZE_OF_COMMAND_SECTION', 'SUPPORTED_VERSION']
+    for k, v in zip(names, need(mc, names, 'DeckMemoryManager')):
+        g.nat('deck' + ''.join(w.capitalize() for w in k.split('_')), v)
+    pi = X.find(mgr, '_parse_info_section')
+    sc = one_struct(pi, '_parse_info_section', n=1)
+    emit_struct(g, 'deckVersion', sc[0])
+    g.strings('deckInfoCompares', X.compares(pi))
+    loops = [n for n in ast.walk(pi) if isinstance(n, ast.For)]
+    X.expect(len(loops) == 1, '_parse_info_section: expected one for loop')
+    g.string('deckLoopIter', ast.unparse(loops[0].iter))
+    a = assigns(pi)
+    env = {'self.SIZE_OF_VERSION': 'deckSizeOfVersion', 'self.SIZE_OF_DECK_MEM_INFO': 'deckSizeOfDeckMemInfo', 'i': 'i', 'start': 'start',
+           'self.COMMAND_SECTION_ADDRESS': 'deckCommandSectionAddress', 'self.SIZE_OF_COMMAND_SECTION': 'deckSizeOfCommandSection'}
+    X.expect('start' in a and 'end' in a and 'deck_memory' in a, '_parse_info_section: start/end/deck_memory assignments not found')
+    g.raw('def deckStart (i : Nat) : Nat := ' + to_lean(a['start'], env))
+    g.raw('def deckEnd (start : Nat) : Nat := ' + to_lean(a['end'], env))
+    dmc = a['deck_memory']
+    X.expect(isinstance(dmc, ast.Call) and ast.unparse(dmc.func) == 'DeckMemory' and len(dmc.args) == 2, '_parse_info_section: DeckMemory(self, <cmd base>) not found')
+    g.raw('def deckCmdBase (i : Nat) : Nat := ' + to_lean(dmc.args[1], env))
+    g.strings('deckParseCall', [x[0] for x in call_args(pi, 'deck_memory._parse')])
+    g.strings('deckInfoTests', [ast.unparse(n.test) for n in sorted((m for m in ast.walk(pi) if isinstance(m, ast.If)), key=lambda m: m.lineno)])
+    nd = X.find(mgr, '_new_data')
+    g.strings('deckNewDataCompares', X.compares(nd))
+    hs = [ast.unparse(h.type) for n in ast.walk(nd) if isinstance(n, ast.Try) for h in n.handlers]
+    g.strings('deckNewDataExcept', hs)
+    qd = X.find(mgr, 'query_decks')
+    rd = call_args(qd, 'self.mem_handler.read')
+    X.expect(len(rd) == 1, 'query_decks: expected one mem_handler.read')
+    g.strings('deckQueryRead', rd[0])
+
+
 def extract(ctx):
-    g = X.GenFile(PID, ['cflib/crazyflie/mem/i2c_element.py', 'cflib/crazyflie/mem/ow_element.py', 'cflib/crazyflie/mem/lighthouse_memory.py'])
+    g = X.GenFile(PID, ['cflib/crazyflie/mem/i2c_element.py', 'cflib/crazyflie/mem/ow_element.py', 'cflib/crazyflie/mem/lighthouse_memory.py',
+                          'cflib/crazyflie/mem/deck_memory.py'])
     extract_i2c(g)
     extract_ow(g)
     extract_lh(g)
+    extract_deck(g)
     return {'C14.lean': g.render()}
 
 
@@ -888,7 +956,75 @@ def gen_lh(ctx, cases):
                       {'op': 'lh_cfg', 'size': size, 'geo_bs': gb, 'calib_bs': cb}, ('lh_cfg', size, tuple(gb), tuple(cb), line[:200])))
 
 
-GENERATORS = [gen_i2c, gen_ow, gen_lh]
+# ---- deck memory ------------------------------------------------------------------------------------------
+DECK_PROPS = ['is_valid', 'is_started', 'supports_read', 'supports_write', 'supports_fw_upgrade', 'is_fw_upgrade_required',
+              'is_bootloader_active', 'supports_reset_to_fw', 'supports_reset_to_bootloader']
+
+
+def real_deck_info(mem):
+    _quiet()
+    from cflib.crazyflie.mem.deck_memory import DeckMemoryManager
+    h = FakeMemHandler(mem)
+    mgr = DeckMemoryManager(5, 0x19, 0x2000, h)
+    ok, failed = [], []
+    try:
+        mgr.query_decks(ok.append, failed.append)
+        h.run(new_data='_new_data', write_done='_write_done')
+    except Exception as e:
+        return 'err ' + exc_enum(e)
+    if failed:
+        import re
+        mm = re.match(r'Deck memory version (\d+) not supported$', failed[0])
+        return 'ok unsupported %s' % (mm.group(1) if mm else failed[0])
+    out = []
+    for i, d in ok[0].items():
+        out.append('%d:%d:%d:%d:%d:%d:%d:%s:%s' % (i, d._bit_field1, d._bit_field2, d.required_hash, d.required_length, d._base_address,
+                                                   d._command_base_address, '.'.join(str(ord(c)) for c in d.name),
+                                                   ''.join('1' if getattr(d, p) else '0' for p in DECK_PROPS)))
+    return 'ok decks ' + (';'.join(out) or '-')
+
+
+def deck_record(rng, kind):
+    bf1 = rng.randrange(256) if rng.random() < 0.2 else (rng.randrange(128) | (1 if rng.random() < 0.7 else 0))
+    bf2 = rng.randrange(4) if rng.random() < 0.8 else rng.randrange(256)
+    u32 = lambda: rng.choice([0, 1, 0xFFFFFFFF, 0x10000000, rng.getrandbits(32)])
+    if kind == 'ascii':
+        n = rng.choice([0, 1, 5, 17, 18])
+        name = bytes(rng.choice(b'abcdefghijklmnopqrstuvwxyzABCDEFGHIJ0123456789_-. ') for _ in range(n))
+    elif kind == 'utf8':
+        name = rng.choice(['é', 'ü', '€', '😀', 'aé€', 'ÿ', '\u07ff', '\u0800', '\ud7ff', '\ue000', '\uffff', '\U00010000', '\U0010ffff']).encode() * rng.choice([1, 1, 2])
+        name = name[:18]
+    else:
+        name = bytes(rng.choice([0, 0x41, 0x80, 0xBF, 0xC0, 0xC1, 0xC2, 0xE0, 0xED, 0xA0, 0x9F, 0xF0, 0xF4, 0xF5, 0x90, 0x8F, 0xFF, rng.randrange(256)])
+                     for _ in range(rng.choice([1, 2, 3, 4, 18])))
+    return bytes([bf1, bf2]) + struct.pack('<LLL', u32(), u32(), u32()) + name.ljust(18, b'\x00')[:18]
+
+
+def gen_deck(ctx, cases):
+    rng = ctx.rng
+    thorough = ctx.tier == 'thorough'
+
+    def add(mem, why):
+        cases.append(('deck_info', 'deck_info ' + hexs(mem), (lambda m=mem: real_deck_info(m)), None,
+                      {'op': 'deck_info', 'why': why, 'len': len(mem), 'head': bytes(mem[:34]).hex()}, ('deck_info', bytes(mem))))
+    # all 2^7 x 2^2 bit-field combinations (four records per image)
+    combos = [(a, b) for a in range(128) for b in range(4)]
+    for k in range(0, len(combos), 8):
+        recs = b''
+        for a, b in combos[k:k + 8]:
+            recs += bytes([a, b]) + struct.pack('<LLL', rng.getrandbits(32), rng.getrandbits(32), rng.getrandbits(32)) + b'bcDeck'.ljust(18, b'\x00')
+        add(bytes([3]) + recs, 'bitfields')
+    for _ in range(400 if thorough else 100):
+        kind = rng.choice(['ascii', 'ascii', 'utf8', 'bytes'])
+        recs = b''.join(deck_record(rng, kind if rng.random() < 0.7 else 'ascii') for _ in range(8))
+        ver = 3 if rng.random() < 0.85 else rng.choice([0, 1, 2, 4, 255])
+        mem = bytes([ver]) + recs + bytes(rng.randrange(256) for _ in range(rng.choice([0, 0, 10])))
+        if rng.random() < 0.15:
+            mem = mem[:rng.choice([0, 1, 2, 3, 32, 33, 34, 35, 100, 225, 226, 227, 256])]     # short memory: truncated records
+        add(mem, kind)
+
+
+GENERATORS = [gen_i2c, gen_ow, gen_lh, gen_deck]
 
 
 def correspond(ctx):
